@@ -114,7 +114,10 @@ fn apply(m: &mut BTreeMap<i32, i32>, op: &MapOperation<i32, i32>) {
         MapOperation::Clear => m.clear(),
     }
 }
-fn run_map(seq: &[MOp]) -> Result<(), String> {
+fn run_map(seq: &[MOp], never_linked: bool) -> Result<(), String> {
+    // never_linked: the syncing remotes had not linked before; the runtime links such a remote implicitly when the first response
+    // TARGETED at it (a sync event or synced) arrives -- until then the lane's standard events do not reach it
+    let mut reached: std::collections::BTreeSet<u128> = Default::default();
     let lane: MapLane<i32, i32> = MapLane::new(0, HashMap::new());
     let mut truth: BTreeMap<i32, i32> = BTreeMap::new();
     let mut observer: BTreeMap<i32, i32> = BTreeMap::new();
@@ -139,8 +142,10 @@ fn run_map(seq: &[MOp]) -> Result<(), String> {
                 LaneResponse::StandardEvent(op) => {
                     let op = conv(op);
                     apply(observer, &op);
-                    for (_, rep) in syncers.iter_mut() {
-                        apply(rep, &op);
+                    for (id, rep) in syncers.iter_mut() {
+                        if !never_linked || reached.contains(id) {
+                            apply(rep, &op);
+                        }
                     }
                     for (_, rep) in followers.iter_mut() {
                         apply(rep, &op);
@@ -148,6 +153,7 @@ fn run_map(seq: &[MOp]) -> Result<(), String> {
                 }
                 LaneResponse::SyncEvent(id, op) => {
                     let op = conv(op);
+                    reached.insert(id.as_u128());
                     match syncers.get_mut(&id.as_u128()) {
                         Some(rep) => apply(rep, &op),
                         None => return Err(format!("step {step}: a sync event was written for {} which is not syncing", id.as_u128())),
@@ -275,7 +281,8 @@ fn lanes_contract() {
     let vops = [VOp::Set(1), VOp::Set(2), VOp::Sync(0), VOp::Write];
     let (n1, f1) = enumerate(&vops, depth + 2, |s| run_value(s).map_err(|e| format!("{:?} => {}", s, e)));
     let mops = [MOp::Update(1, 10), MOp::Update(1, 20), MOp::Update(2, 10), MOp::Remove(1), MOp::Remove(2), MOp::Clear, MOp::Sync, MOp::Write];
-    let (n2, f2) = enumerate(&mops, depth, |s| run_map(s).map_err(|e| format!("{:?} => {}", s, e)));
+    let (n2, f2) = enumerate(&mops, depth, |s| run_map(s, false).map_err(|e| format!("{:?} => {}", s, e)));
+    let (n3, f3) = enumerate(&mops, depth, |s| run_map(s, true).map_err(|e| format!("{:?} => {}", s, e)));
     println!("BX-SAMPLE value lane: all sequences of {{set 1, set 2, sync, write}} up to length {}; map lane: all sequences of {{update/remove/clear over keys 1,2, sync, write}} up to length {}, then drained", depth + 2, depth);
     let mut failed = false;
     match f1 {
@@ -289,6 +296,13 @@ fn lanes_contract() {
         None => println!("BX-OBL map_lane::replicas_converge_and_sync_gives_a_consistent_snapshot ok evaluations={n2} distinct={n2}"),
         Some(w) => {
             println!("BX-FAIL map_lane::replicas_converge_and_sync_gives_a_consistent_snapshot witness={w}");
+            failed = true;
+        }
+    }
+    match f3 {
+        None => println!("BX-OBL map_lane::sync_by_a_remote_that_had_not_linked_gives_a_consistent_snapshot ok evaluations={n3} distinct={n3}"),
+        Some(w) => {
+            println!("BX-FAIL map_lane::sync_by_a_remote_that_had_not_linked_gives_a_consistent_snapshot witness={w}");
             failed = true;
         }
     }
